@@ -26,16 +26,79 @@ from dask._task_spec import Task, TaskRef, Alias, DataNode
 PROPERTY = "C34"
 LEVEL = "other"
 BUDGET = {"quick": 150, "thorough": 1500}
-EXPLANATION = ""
-ASSUMPTIONS = []
-STUBS = []
-ENUM = []
-OUTSIDE = []
-BOUNDS = {"quick": {}, "thorough": {}}
+EXPLANATION = (
+    "Bounded symbolic execution of the per-block integer arithmetic of dask's array creation routines; the REAL public functions are called "
+    "with symbolic Python ints and the tasks of the graph they return are interpreted with NumPy's definition of the task's function. "
+    "(1) da.arange(start, stop, step, chunks=c) with symbolic integer start, stop, chunk size c (step a solver-enumerated constant; the forms "
+    "arange(stop), arange(start, stop), arange(start, stop, step)): the keys of the graph are exactly the grid the lazy chunks declare; every "
+    "block task is chunk.arange(b0, b1, step, length, dtype) whose element count (len(range(b0, b1, step)), trimmed to length) equals its lazy "
+    "chunk size; block 0 starts at start, block k starts where block k-1 stopped; lazy chunks add up to len(range(start, stop, step)); for a "
+    "symbolic probe index p, element p of NumPy's progression start + p*step sits in the block the lazy chunks assign it to, at offset p - "
+    "sum(previous chunks); dtype is NumPy's. Two value regimes: small values with any number of blocks, and |start|,|stop| <= 1000 (10**6 "
+    "thorough) with a bounded number of blocks. (2) da.eye(N, chunks=c, M, k) with symbolic N, M (or None), c, k and a symbolic probe (r, q): "
+    "graph keys == declared grid, lazy chunks add up to (N, M), block shapes equal lazy chunk sizes, and the block containing (r, q) -- np.eye(n, "
+    "m, kk) or np.zeros -- has a one at the probe iff q - r == k. (3) da.tri(N, M, k, chunks) with enumerated sizes / chunk specs and symbolic k "
+    "(|k| <= 10**6): the two operands tri hands to greater_equal are recorded; the column operand (dask's arange(-k, M-k), symbolic block "
+    "starts) is interpreted block by block and (rows[r] >= cols[q]) == (q <= r + k) is decided for every (r, q). da.diag(v, k) for a 1-d dask "
+    "vector with symbolic chunk sizes (>= 0, unbounded), symbolic k and probe (r, q): the k == 0 graph (np.diag of block i on the block diagonal, "
+    "zeros_like elsewhere, shapes == lazy chunks) and the pad widths used for k != 0 place v[i] at [i + max(0,-k), i + max(0,k)] and zeros "
+    "elsewhere, shape (n+|k|)**2. da.diag of a 2-d array with equal symbolic row/column chunks (block-diagonal shortcut): element t is v[t, t]. "
+    "da.diagonal (NumPy integer arithmetic: np.cumsum / comparisons on arrays, so everything is solver-enumerated): for every offset and axis pair, "
+    "each output block's np.diagonal(block, kk, a1, a2) task reads exactly the elements NumPy's definition names, block diagonal lengths equal "
+    "the lazy chunks, lazy chunks add up to NumPy's shape. (4) da.ones / zeros / full / empty with symbolic shape and chunk sizes: lazy chunks add "
+    "up to the shape and every block is created with exactly its lazy chunk shape. Path trees exhausted, every path model replayed natively "
+    "(block tasks are executed and compared with their interpretation), and pushed end-to-end through the public API against NumPy (values, "
+    "dtype, shape, chunk sums) together with linspace, fractional (dyadic) arange, indices, meshgrid, fromfunction, tri, *_like with the model's sizes.")
+ASSUMPTIONS = [
+    "np.arange(a, b, s) for Python ints is range(a, b, s); np.eye(n, m, k)[a, b] == 1 iff b - a == k; np.diag(x)[a, b] = x[a] iff a == b; "
+    "np.diagonal(x, k, a1, a2)[t] = x[.., max(0,-k)+t, .., max(0,k)+t, ..]; np.tri(N, M, k)[r, q] == 1 iff q <= r + k (NumPy's documented "
+    "definitions; the arange interpretation is validated by executing every block task natively on every path model, the others by the e2e witnesses)",
+    "arange's step is a solver-enumerated constant (step * symbolic block offset would be non-linear otherwise)",
+    "int/int true division ((stop - start) / step) is kept as the exact rational while operands are < 2**53 (DESIGN.md lemma); np.ceil of it is the exact ceiling",
+    "np.isclose(a, b, atol=0) of two equal Python ints is True (arange's precision guard `start + step - start` vs `step`: identical integers)",
+    "graph/array names do not influence values: tokenize in dask.array.creation / dask.array.wrap returns a per-path counter string during the symbolic run",
+    "tri: dask.array.ufunc.greater_equal and Array.astype are what their names say (recorded, not executed, in the symbolic run; the e2e witness executes them); "
+    "diag with k != 0: da.pad(mode='constant') pads with zeros by the given widths (recorded; executed by the e2e witness)",
+]
+STUBS = ["dask.array.core.{int, math, np} shims (normalize_chunks: int -> ShimInt, isnan/ceil accept symbolic ints)",
+         "dask.array.creation.{int -> ShimInt, np -> shim: ceil (exact ratio), isclose (equal ints), arange (dtype inference with type(start)(0)), isnan}",
+         "dask.array.creation.tokenize and dask.array.wrap.tokenize -> per-path counter (hashing would concretise every symbolic argument)",
+         "dask.array.creation.greater_equal -> recorder (tri), dask.array.creation.pad -> recorder (diag with k != 0); in both symbolic and native runs",
+         "input arrays of diag are dask Arrays built by the harness from Task(block builder, offset, size) with symbolic chunk sizes",
+         "functools caches dask.utils._cumsum / _max and normalize_chunks_cached cleared per path"]
+ENUM = ["arange: call form, step, number of blocks (normalize_chunks multiplies a tuple by num // c)",
+        "eye / ones / zeros / full: number of blocks per axis", "diag: number of blocks (1..3 quick, 1..4 thorough)",
+        "tri: N, M, chunk spec (only k is symbolic: reshape / transpose / blockwise need concrete sizes)",
+        "diagonal and diag of a 2-d array with k != 0 or unequal chunks: every input (shape, chunks, offset, axes) -- NumPy integer arithmetic concretises; "
+        "offsets and axis pairs are looped inside one path",
+        "linspace, arange with fractional steps or an explicit dtype, indices, meshgrid, fromfunction, ones_like / zeros_like / full_like / empty_like, "
+        "tri's and diag's lazy chunks: covered ONLY by the solver-enumerated e2e witnesses (one per k-th path model, with the model's sizes)"]
+OUTSIDE = ["fractional arange steps: length rounding ceil((stop-start)/step) in floating point and per-block start rounding (only dyadic steps are witnessed, where floats are exact)",
+           "linspace: float step and per-block start accumulation; witnesses compare shape, dtype, chunk sums exactly and values within 8 eps of the end points' magnitude "
+           "(dask differs from np.linspace by 1 ulp for non-dyadic steps, e.g. linspace(-3, -2, 3, endpoint=False, chunks=1)); retstep for num < 2 (dask returns a finite step, NumPy nan)",
+           "chunks='auto' / byte strings (C23), like= / non-NumPy backends, unknown chunk sizes, dask-array arguments to linspace",
+           "more than the listed number of blocks in the wide-range obligations; tri with symbolic sizes",
+           "the ufunc / reshape / transpose / pad / broadcast machinery that tri, diag(k != 0), indices, meshgrid, fromfunction are composed of (other properties)",
+           "repeat, tile, pad modes"]
+BOUNDS = {
+    "quick": dict(arange="(a) start, stop in [-8, 8], c in [1, 9], step in +-{1,2,3}, any number of blocks (<= 16); (b) start, stop in [-1000, 1000], c in [1, 2001], "
+                         "step in +-{1,2,3,7}, <= 4 blocks; probe p symbolic",
+                  eye="(a) N, M in [0, 6] (M may be None), c in [1, 7], k in [-8, 8]; (b) N, M in [0, 300], c in [1, 301], k in [-700, 700], <= 3 blocks per axis; probe (r, q) symbolic",
+                  tri="N, M in 0..4 (M may be None), 9 chunk specs, k symbolic in [-10**6, 10**6]",
+                  diag="1-d: 1..3 blocks, chunk sizes >= 0 unbounded, k in [-1000, 1000], probe unbounded; 2-d shortcut: 1..3 blocks, sizes >= 0 unbounded",
+                  diagonal="2-d: N, M in 0..4, 5 chunk pairs, offsets -5..5, 3 axis pairs; 3-d (N,3,M): N, M in 0..2, 3 chunk pairs, offsets -3..3, 5 axis pairs",
+                  wrap="1-d: s in [0, 8], c in [1, 9]; 2-d: s in [0, 4], c in [1, 5]; ones, zeros, full, empty"),
+    "thorough": dict(arange="(a) start, stop in [-16, 16], c in [1, 17], step in +-{1..5}; (b) start, stop in [-10**6, 10**6], c <= 2*10**6+1, step in +-{1,2,3,7,10}, <= 6 blocks",
+                     eye="(a) N, M in [0, 9], c in [1, 10], k in [-12, 12]; (b) N, M in [0, 2000], k in [-5000, 5000], <= 4 blocks per axis",
+                     tri="N, M in 0..6", diag="1..4 blocks", diagonal="2-d: N, M in 0..6, 8 chunk pairs; 3-d: N, M in 0..3, 8 chunk pairs",
+                     wrap="1-d: s <= 12; 2-d: s <= 7; 3-d: s <= 3"),
+}
 
 
 def functions():
-    return [CR.arange, CR.eye, CR.diag, CR.diagonal, CR.tri, CH.arange, W._parse_wrap_args, W.wrap_func_shape_as_first_arg]
+    import dask.layers as L
+    return [CR.arange, CR.eye, CR.diag, CR.diagonal, CR.tri, CH.arange, W._parse_wrap_args, W.wrap_func_shape_as_first_arg,
+            L.ArrayChunkShapeDep.__getitem__, AC.normalize_chunks, AC.blockdims_from_blockshape]
 
 
 # ----------------------------------------------------------------------------- patches
@@ -280,7 +343,7 @@ def _e2e_1d(start, stop, step, c, p):
 
 def _e2e_2d(N, M, c, k):
     """witnesses for the NumPy driven 2-d routines with the path model's sizes (not part of the symbolic claim)"""
-    c2 = 1 + abs(k) % 3
+    c2 = 1 + abs(k) % 3 if M <= 12 else c       # keep the number of blocks of the witness small
     tag = f"N={N}, M={M}, chunks=({c},{c2})"
     for dt in (int, float):
         _cmp(f"indices({tag}, dtype={dt})", da.indices((N, M), dtype=dt, chunks=(c, c2)), np.indices((N, M), dtype=dt))
@@ -435,7 +498,7 @@ def mk_tri(nmax, kmax, specs):
         for dt in (float, int, bool):
             _cmp(f"tri({N}, {M}, {k}, dtype={dt}, chunks={spec})", da.tri(N, M, k, dtype=dt, chunks=spec), np.tri(N, M, k, dtype=dt))
 
-    return Obligation(f"tri[N,M<={nmax},|k|<={kmax}]", setup, run, patches=_patches, e2e=e2e, e2e_every=2)
+    return Obligation(f"tri[N,M<={nmax},|k|<={kmax}]", setup, run, patches=_patches, e2e=e2e, e2e_every=3)
 
 
 # ----------------------------------------------------------------------------- (3b) diag
@@ -772,9 +835,9 @@ def obligations(tier):
     if tier == "quick":
         obs.append(mk_arange(8, 9, (1, 2, 3, -1, -2, -3)))
         obs.append(mk_arange(1000, 2001, (1, 2, 3, 7, -1, -2, -3, -7), max_blocks=4, every=7))
-        obs.append(mk_eye(6, 7, 8))
+        obs.append(mk_eye(6, 7, 8, every=8))
         obs.append(mk_eye(300, 301, 700, max_blocks=3, every=9))
-        obs.append(mk_tri(4, 50, TRI_SPECS))
+        obs.append(mk_tri(4, 10 ** 6, TRI_SPECS))
         for nb in (1, 2, 3):
             obs.append(mk_diag1d(nb, 1000))
             obs.append(mk_diag2d(nb))
@@ -783,14 +846,17 @@ def obligations(tier):
         obs.append(mk_wrap(1, 8, 9))
         obs.append(mk_wrap(2, 4, 5))
     else:
-        obs.append(mk_arange(12, 13, (1, 2, 3, 4, -1, -2, -3, -4)))
-        obs.append(mk_eye(9, 10, 12))
-        obs.append(mk_tri(6, 50, TRI_SPECS))
+        obs.append(mk_arange(16, 17, (1, 2, 3, 4, 5, -1, -2, -3, -4, -5), every=11))
+        obs.append(mk_arange(10 ** 6, 2 * 10 ** 6 + 1, (1, 2, 3, 7, 10, -1, -2, -3, -7, -10), max_blocks=6, every=11))
+        obs.append(mk_eye(9, 10, 12, every=13))
+        obs.append(mk_eye(2000, 2001, 5000, max_blocks=4, every=17))
+        obs.append(mk_tri(6, 10 ** 6, TRI_SPECS))
         for nb in (1, 2, 3, 4):
             obs.append(mk_diag1d(nb, 1000))
             obs.append(mk_diag2d(nb))
         obs.append(mk_diagonal(6, False, DIAGONAL_CHUNKS))
-        obs.append(mk_diagonal(4, True, DIAGONAL_CHUNKS))
+        obs.append(mk_diagonal(3, True, DIAGONAL_CHUNKS))
         obs.append(mk_wrap(1, 12, 13))
         obs.append(mk_wrap(2, 7, 8))
+        obs.append(mk_wrap(3, 3, 4))
     return obs
